@@ -7,9 +7,10 @@ import SxVerif.Spec.ArpCache
 import SxVerif.Generated.Problems
 import SxVerif.Generated.ArpCacheFacts
 import SxVerif.Proofs.ArpCache
+import SxVerif.Proofs.ComposeArp
 
 namespace SxVerif.C11
-open SxVerif.Json SxVerif.Gen SxVerif.ArpCache
+open SxVerif.Json SxVerif.Gen SxVerif.ArpCache SxVerif.Compose
 
 theorem translator_clean : Generated.translatorProblems = [] := by decide
 
@@ -36,6 +37,20 @@ theorem C11_line_loads (a b c d m0 m1 m2 m3 m4 m5 : UInt8) (vendor : GoStr) :
     fillCache [arpLine a b c d m0 m1 m2 m3 m4 m5 vendor]
       = some [(.v4 (ipNat a b c d) false, macNat [m0, m1, m2, m3, m4, m5])] := by
   simp [fillCache, Proofs.ArpCache.lineEntry_arpLine]
+
+/-- **C11 ∘ C06 — what the ARP scan prints is a valid cache of what was on the wire**: for every byte string
+    `f` handed to the ARP processor MODEL (`Model/Proc.lean`), in every prior state `st` of its reused decoder
+    structs (so for every history of earlier frames), and for every vendor string: if a record is emitted,
+    then `f` itself holds the Ethernet → ARP chain with hardware type 1, protocol 0x0800, sizes 6/4
+    (`arpChain`, flat offsets, C06's `Faithful`), the record renders to a line (`arpRecordLine`:
+    `net.IP.String()` / `HardwareAddr.String()` / `MarshalJSON` as modelled for C14), and `fillCache` accepts
+    that line and loads exactly {sender protocol address of `f` (bytes 28..31) ↦ sender hardware address of
+    `f` (bytes 22..27)} — nothing else, nothing from an earlier frame. -/
+theorem C11_printed_line_loads (st : Frame.State) (f : Frame.Bytes) (r : Proc.Record) (vendor : GoStr)
+    (h : (Proc.process .arp st f).2 = .record r) :
+    ∃ v line, Spec.Frame.arpChain f = some v ∧ arpRecordLine r vendor = some line ∧
+      fillCache [line] = some [(.v4 (macNat v.ip) false, macNat v.mac)] :=
+  Proofs.Compose.printed_line_loads st f r vendor h
 
 /-- a file is loaded line by line, in order: loading `l₁ ++ l₂` = loading `l₁`, then `l₂` on top -/
 theorem C11_load_in_order (l1 l2 : List (List Char)) :
@@ -82,5 +97,10 @@ example : String.ofList (fmtMAC 0 0x1b 0x21 0xa0 0x0f 0xff) = "00:1b:21:a0:0f:ff
 example : parseIP "01.2.3.4".toList = none ∧ parseIP "1.2.3.256".toList = none ∧ parseIP "::ffff:1.2.3.4".toList = some 16909060 := by
   decide
 example : cacheGet [(.v4 5 false, 1), (.v4 6 false, 2), (.v4 5 true, 3)] (.v4 5 false) = some 3 := by decide
+
+-- an ARP reply from 10.0.0.7 / 02:00:00:00:00:07 is reported, so the hypothesis of `C11_printed_line_loads` is met
+example : (Proc.process .arp {}
+    [0,0,0,0,0,1, 2,0,0,0,0,7, 8,6,  0,1, 8,0, 6,4, 0,2,  2,0,0,0,0,7, 10,0,0,7,  0,0,0,0,0,1, 10,0,0,1]).2
+    = .record (.arp [10,0,0,7] [2,0,0,0,0,7]) := by decide
 
 end SxVerif.C11
